@@ -1,6 +1,12 @@
 // Package c02: only payloads signed by a trusted key with an allowed algorithm are believed (property C02).
 //
-// One case = (verifier kind, key set, allowed-algorithm list, a genuinely signed token, 0-2 manipulations of it).
+// One case = (verifier kind, key set, allowed-algorithm list, a genuinely signed token, 0-2 manipulations of it), optionally
+// followed by up to 3 further calls on the SAME long-lived verifier / key-set / provider instance: before each of them the
+// key set the storage / JWKS endpoint / application serves may change (key added, removed, replaced under the same kid, use
+// or kid changed, emptied, restored), and the token presented is either freshly signed (against the key set in force or an
+// earlier one) or DERIVED from the genuinely signed token of an earlier call (replayed as it is, or the same signature
+// with another payload / header, the same payload with another signature, ...). Every call is judged by the same per-call
+// oracle against the key set in force at the time of that call.
 // The claims of every token are valid for the verifier in use and carry fixed far-away time stamps (iat 2020,
 // exp 2100), so the signature / key / algorithm decision is the only thing that can reject a token and no
 // wall clock takes part in any decision. Soundness and completeness are judged in the same run.
@@ -53,6 +59,15 @@ type FindKeySpec struct {
 	Alg string `json:"alg"`
 }
 
+// Step is one further call on the same instance (Case.Seq).
+type Step struct {
+	Mut   string     `json:"mut,omitempty"`   // key-set change applied before this call ("" none); Keys / Keys2 are then the sets in force from here on
+	Keys  []KeyEntry `json:"keys,omitempty"`  // only meaningful with Mut != ""
+	Keys2 []KeyEntry `json:"keys2,omitempty"` // only meaningful with Mut != ""
+	From  int        `json:"from,omitempty"`  // 1 + index of the earlier call (0 = the case's first token) whose genuinely signed token is reused; 0: freshly signed
+	Tok   TokSpec    `json:"tok"`
+}
+
 type Case struct {
 	Kind       string       `json:"kind"`
 	Router     string       `json:"router,omitempty"` // *-http kinds: provider | legacy
@@ -66,6 +81,7 @@ type Case struct {
 	SkipRemote bool         `json:"skip_remote,omitempty"` // rp-remote: rp.SkipRemoteCheck()
 	FK         *FindKeySpec `json:"fk,omitempty"`
 	Raw        []byte       `json:"raw,omitempty"` // native fuzz: literal serialized token ($H $P $S $E placeholders), replaces manipulations
+	Seq        []Step       `json:"seq,omitempty"` // further calls on the same verifier / key-set / provider instance
 }
 
 // verifier kinds
@@ -80,9 +96,11 @@ const (
 	kReqObj    = "reqobj"        // op.ParseRequestObject called directly
 	kReqHTTP   = "reqobj-http"   // request object through the authorize endpoint
 	kFindKey   = "findkey"       // oidc.FindMatchingKey directly
+	kProvAcc   = "prov-access"   // op.VerifyAccessToken with Provider.AccessTokenVerifier of a provider built by op.NewProvider (its default key set)
+	kProvHint  = "prov-hint"     // op.VerifyIDTokenHint with Provider.IDTokenHintVerifier of a provider built by op.NewProvider (its default key set)
 )
 
-var tokenKinds = []string{kRPStatic, kRPRemote, kOPAccess, kOPHint, kHintHTTP, kAssert, kAssertKS, kReqObj, kReqHTTP}
+var tokenKinds = []string{kRPStatic, kRPRemote, kOPAccess, kOPHint, kHintHTTP, kAssert, kAssertKS, kReqObj, kReqHTTP, kProvAcc, kProvHint}
 
 func perClient(kind string) bool { return kind == kAssert || kind == kReqObj || kind == kReqHTTP }
 func isHTTP(kind string) bool    { return kind == kHintHTTP || kind == kReqHTTP }
@@ -100,7 +118,7 @@ func allowedAlgs(c Case) []string {
 			return defaultAlgs
 		}
 		return c.Algs
-	case kHintHTTP:
+	case kHintHTTP, kProvAcc, kProvHint:
 		return []string{hintAlg(c)}
 	}
 	return defaultAlgs // assertions and request objects: no option, documented default
@@ -225,7 +243,7 @@ func genCase(t *rapid.T) Case {
 	var c Case
 	c.Kind = rapid.SampledFrom([]string{
 		kAssert, kAssert, kAssert, kRPRemote, kRPRemote, kRPRemote, kOPAccess, kOPAccess, kOPAccess, kReqObj, kReqObj, kOPHint, kOPHint,
-		kRPStatic, kRPStatic, kRPStatic, kHintHTTP, kAssertKS, kReqHTTP, kReqHTTP, kFindKey, kFindKey, kFindKey,
+		kRPStatic, kRPStatic, kRPStatic, kHintHTTP, kAssertKS, kReqHTTP, kReqHTTP, kFindKey, kFindKey, kFindKey, kProvAcc, kProvAcc, kProvHint,
 	}).Draw(t, "kind")
 	if isHTTP(c.Kind) {
 		c.Router = rapid.SampledFrom([]string{"provider", "legacy"}).Draw(t, "router")
@@ -238,7 +256,7 @@ func genCase(t *rapid.T) Case {
 			// including lists that name nothing a public key can verify (the verifier must then believe nothing, not fall back)
 			c.Algs = rapid.SliceOfNDistinct(rapid.SampledFrom(allowListPool), 1, 4, rapid.ID[string]).Draw(t, "algsfreelist")
 		}
-	case kHintHTTP:
+	case kHintHTTP, kProvAcc, kProvHint:
 		c.Algs = []string{rapid.SampledFrom(allAlgs).Draw(t, "hintalg")}
 	}
 	if c.Kind == kFindKey {
@@ -253,8 +271,11 @@ func genCase(t *rapid.T) Case {
 		c.SkipRemote = rapid.IntRange(0, 3).Draw(t, "skipremote") == 0
 	}
 	if perClient(c.Kind) {
+		c.Keys = genKeySet(t, "c1", allowed, true, 3)
+		c.Keys2 = genKeySet(t, "c2", allowed, true, 2)
 		genPerClient(t, &c, allowed)
 	} else {
+		c.Keys = genKeySet(t, "ks", allowed, false, 4)
 		genPublished(t, &c, allowed)
 	}
 	if c.Kind == kAssert || c.Kind == kAssertKS {
@@ -265,15 +286,214 @@ func genCase(t *rapid.T) Case {
 			c.Tok.Sub = rapid.SampledFrom([]string{otherWho(who(c)), "", otherWho(who(c)), "user-7"}).Draw(t, "sub")
 		}
 	}
-	nm := rapid.SampledFrom([]int{0, 0, 0, 1, 1, 1, 1, 1, 2, 2}).Draw(t, "nmanip")
+	// a sequence starts more often from a token the instance accepts (what it remembers is what later calls abuse)
+	seqLen := rapid.SampledFrom([]int{0, 0, 0, 0, 1, 1, 2, 2, 3, 3}).Draw(t, "seqlen")
+	nms := []int{0, 0, 0, 1, 1, 1, 1, 1, 2, 2}
+	if seqLen > 0 {
+		nms = []int{0, 0, 0, 0, 0, 0, 1, 1, 1, 2}
+	}
+	nm := rapid.SampledFrom(nms).Draw(t, "nmanip")
 	for i := 0; i < nm; i++ {
 		c.Tok.Manips = append(c.Tok.Manips, genManip(t, c, i))
 	}
+	genSeq(t, &c, allowed, seqLen)
 	return c
 }
 
+// ---- sequences on one instance ----------------------------------------------------
+
+var derivedManipKinds = []string{
+	"payload-edit", "payload-edit", "payload-edit", "payload-edit", "sig-flip", "sig-flip", "sig-other", "sig-other", "payload-reencode", "payload-reencode",
+	"kid-edit", "alg-swap", "smuggle", "smuggle", "hs-pub", "alg-none", "strip-sig", "json-flat", "json-general", "json-2sig", "trunc", "b64-noncanon", "extra-seg",
+}
+
+// genKeyMut draws one change of a key set. unique: per-client registrations (kid unique, use always sig). focus is the
+// pool key of the token presented last (the key an instance is most likely to remember), orig the set the case started with.
+func genKeyMut(t *rapid.T, l string, keys, orig []KeyEntry, allowed []string, unique bool, focus string) (string, []KeyEntry) {
+	out := append([]KeyEntry{}, keys...)
+	if len(out) == 0 {
+		op := rapid.SampledFrom([]string{"add", "add", "restore"}).Draw(t, l+"op0")
+		if op == "restore" && len(orig) > 0 {
+			return "restore", append([]KeyEntry{}, orig...)
+		}
+		n := genKeySet(t, l+"add", allowed, unique, 1)
+		if len(n) == 0 {
+			n = []KeyEntry{{Key: "rsa1", KID: "k1", Use: "sig"}}
+		}
+		return "add", n
+	}
+	i := rapid.IntRange(0, len(out)-1).Draw(t, l+"idx")
+	if rapid.Bool().Draw(t, l+"focus") {
+		for j, e := range out {
+			if e.Key == focus {
+				i = j
+				break
+			}
+		}
+	}
+	kidFree := func(kid string, except int) bool {
+		for j, e := range out {
+			if j != except && e.KID == kid {
+				return false
+			}
+		}
+		return true
+	}
+	ops := []string{"remove", "remove", "remove", "replace-key", "replace-key", "add", "add", "set-kid", "clear", "restore", "set-use", "set-use"}
+	op := rapid.SampledFrom(ops).Draw(t, l+"op")
+	switch op {
+	case "remove":
+		out = append(out[:i], out[i+1:]...)
+	case "replace-key": // another key published / registered under the same kid
+		out[i].Key = otherKeyLike(out[i].Key, out)
+		if out[i].Alg != "" && !vkit.AlgFitsKey(out[i].Alg, vkit.Key(out[i].Key)) {
+			out[i].Alg = ""
+		}
+	case "add":
+		if len(out) >= 4 {
+			return "", keys
+		}
+		e := KeyEntry{Key: rapid.SampledFrom(vkit.KeyNames).Draw(t, l+"addkey"), KID: rapid.SampledFrom(kidPool).Draw(t, l+"addkid"), Use: "sig"}
+		if rapid.Bool().Draw(t, l+"addlike") {
+			e.Key = otherKeyLike(out[i].Key, out) // a further key of the same type (roll-over)
+		}
+		if unique {
+			if !kidFree(e.KID, -1) {
+				return "", keys
+			}
+		} else {
+			e.Use = rapid.SampledFrom([]string{"sig", "sig", "", "enc"}).Draw(t, l+"adduse")
+		}
+		if rapid.Bool().Draw(t, l+"addfront") {
+			out = append([]KeyEntry{e}, out...)
+		} else {
+			out = append(out, e)
+		}
+	case "set-kid":
+		kid := rapid.SampledFrom(kidPool).Draw(t, l+"newkid")
+		if kid == out[i].KID || (unique && !kidFree(kid, i)) {
+			return "", keys
+		}
+		out[i].KID = kid
+	case "set-use":
+		if unique {
+			return "", keys
+		}
+		use := rapid.SampledFrom([]string{"enc", "enc", "sig", ""}).Draw(t, l+"newuse")
+		if use == out[i].Use {
+			return "", keys
+		}
+		out[i].Use = use
+	case "clear":
+		out = nil
+	case "restore":
+		if sameKeys(out, orig) {
+			return "", keys
+		}
+		out = append([]KeyEntry{}, orig...)
+	}
+	return op, out
+}
+
+func sameKeys(a, b []KeyEntry) bool {
+	if len(a) != len(b) {
+		return false
+	}
+	for i := range a {
+		if a[i] != b[i] {
+			return false
+		}
+	}
+	return true
+}
+
+// genSeq appends n further calls on the same instance.
+func genSeq(t *rapid.T, c *Case, allowed []string, n int) {
+	type version struct{ keys, keys2 []KeyEntry }
+	cur := version{c.Keys, c.Keys2}
+	versions := []version{cur}
+	toks := []TokSpec{c.Tok}
+	for i := 0; i < n; i++ {
+		l := fmt.Sprintf("s%d", i)
+		var st Step
+		last := toks[len(toks)-1]
+		if rapid.IntRange(0, 9).Draw(t, l+"mutate") < 6 {
+			if perClient(c.Kind) {
+				// mostly the registration of the client that presented the last token
+				second := last.Iss == "c2"
+				if rapid.IntRange(0, 4).Draw(t, l+"otherclient") == 0 {
+					second = !second
+				}
+				if second {
+					op, k := genKeyMut(t, l, cur.keys2, c.Keys2, allowed, true, last.Key)
+					if op != "" {
+						st.Mut, cur.keys2 = "c2:"+op, k
+					}
+				} else {
+					op, k := genKeyMut(t, l, cur.keys, c.Keys, allowed, true, last.Key)
+					if op != "" {
+						st.Mut, cur.keys = "c1:"+op, k
+					}
+				}
+			} else {
+				op, k := genKeyMut(t, l, cur.keys, c.Keys, allowed, false, last.Key)
+				if op != "" {
+					st.Mut, cur.keys = op, k
+				}
+			}
+			if st.Mut != "" {
+				st.Keys, st.Keys2 = cur.keys, cur.keys2
+				versions = append(versions, cur)
+			}
+		}
+		if rapid.IntRange(0, 9).Draw(t, l+"derive") < 6 {
+			// derived from the genuinely signed token of an earlier call: replayed as it is or manipulated
+			j := rapid.SampledFrom([]int{0, len(toks) - 1, len(toks) - 1, rapid.IntRange(0, len(toks)-1).Draw(t, l+"fromany")}).Draw(t, l+"from")
+			st.From = j + 1
+			st.Tok = toks[j]
+			st.Tok.Manips = nil
+			tmp := *c
+			tmp.Keys, tmp.Keys2, tmp.Tok = cur.keys, cur.keys2, st.Tok
+			nm := rapid.SampledFrom([]int{0, 0, 0, 1, 1, 1, 1, 1, 2, 2}).Draw(t, l+"nmanip")
+			for k := 0; k < nm; k++ {
+				if rapid.IntRange(0, 3).Draw(t, fmt.Sprintf("%sgeneral%d", l, k)) == 0 {
+					st.Tok.Manips = append(st.Tok.Manips, genManip(t, tmp, k))
+				} else {
+					st.Tok.Manips = append(st.Tok.Manips, genManipOf(t, tmp, fmt.Sprintf("%sm%d", l, k), rapid.SampledFrom(derivedManipKinds).Draw(t, fmt.Sprintf("%sm%dkind", l, k))))
+				}
+			}
+		} else {
+			// freshly signed, against the key set in force or (a key retired meanwhile) an earlier one
+			v := cur
+			old := false
+			if len(versions) > 1 && rapid.IntRange(0, 2).Draw(t, l+"oldversion") == 0 {
+				vi := rapid.IntRange(0, len(versions)-2).Draw(t, l+"version")
+				v, old = versions[vi], true
+			}
+			tmp := *c
+			tmp.Keys, tmp.Keys2, tmp.Tok = v.keys, v.keys2, TokSpec{}
+			if perClient(c.Kind) {
+				genPerClient(t, &tmp, allowed)
+			} else {
+				genPublished(t, &tmp, allowed)
+			}
+			st.Tok = tmp.Tok
+			st.Tok.Sub = c.Tok.Sub
+			if old {
+				st.Tok.Relation = "old:" + st.Tok.Relation
+			}
+			tmp.Keys, tmp.Keys2, tmp.Tok = cur.keys, cur.keys2, st.Tok
+			nm := rapid.SampledFrom([]int{0, 0, 0, 0, 1, 1, 2}).Draw(t, l+"nmanip")
+			for k := 0; k < nm; k++ {
+				st.Tok.Manips = append(st.Tok.Manips, genManip(t, tmp, k))
+			}
+		}
+		toks = append(toks, st.Tok)
+		c.Seq = append(c.Seq, st)
+	}
+}
+
 func genPublished(t *rapid.T, c *Case, allowed []string) {
-	c.Keys = genKeySet(t, "ks", allowed, false, 4)
 	tok := &c.Tok
 	if len(c.Keys) == 0 {
 		tok.Relation = "empty-set"
@@ -323,8 +543,6 @@ func genPublished(t *rapid.T, c *Case, allowed []string) {
 }
 
 func genPerClient(t *rapid.T, c *Case, allowed []string) {
-	c.Keys = genKeySet(t, "c1", allowed, true, 3)
-	c.Keys2 = genKeySet(t, "c2", allowed, true, 2)
 	tok := &c.Tok
 	tok.Iss = rapid.SampledFrom([]string{"c1", "c1", "c1", "c1", "c1", "c1", "c2", "ghost"}).Draw(t, "iss")
 	own, foreign := c.Keys, c.Keys2
@@ -378,13 +596,17 @@ func genPerClient(t *rapid.T, c *Case, allowed []string) {
 
 var manipKinds = []string{
 	"strip-sig", "alg-none", "alg-none", "hs-pub", "hs-pub", "hs-pub", "alg-swap", "alg-swap", "kid-edit", "payload-reencode", "payload-reencode",
-	"payload-edit", "payload-edit", "sig-flip", "trunc", "trunc", "b64-noncanon", "extra-seg", "ws", "json-flat", "json-general", "json-2sig", "json-2sig",
+	"payload-edit", "payload-edit", "sig-flip", "sig-other", "trunc", "trunc", "b64-noncanon", "extra-seg", "ws", "json-flat", "json-general", "json-2sig", "json-2sig",
 	"smuggle", "smuggle", "smuggle", "smuggle", "smuggle", "smuggle",
 }
 
 func genManip(t *rapid.T, c Case, i int) Manip {
 	l := fmt.Sprintf("m%d", i)
-	m := Manip{Kind: rapid.SampledFrom(manipKinds).Draw(t, l+"kind")}
+	return genManipOf(t, c, l, rapid.SampledFrom(manipKinds).Draw(t, l+"kind"))
+}
+
+func genManipOf(t *rapid.T, c Case, l, kind string) Manip {
+	m := Manip{Kind: kind}
 	switch m.Kind {
 	case "strip-sig":
 		m.Arg = rapid.SampledFrom([]string{"empty", "two-segments"}).Draw(t, l+"arg")
@@ -403,6 +625,8 @@ func genManip(t *rapid.T, c Case, i int) Manip {
 		m.N = rapid.IntRange(0, 1).Draw(t, l+"n") // 0: same length, 1: other length
 	case "sig-flip":
 		m.N = rapid.IntRange(0, 4095).Draw(t, l+"n")
+	case "sig-other":
+		m.N = rapid.IntRange(0, 2).Draw(t, l+"n")
 	case "trunc":
 		m.Arg = rapid.SampledFrom([]string{"h", "p", "s", "s"}).Draw(t, l+"arg")
 		m.N = rapid.SampledFrom([]int{1, 2, 3, 4, 5, 16, 1000}).Draw(t, l+"n")
@@ -450,9 +674,11 @@ func genFindKey(t *rapid.T, c Case) Case {
 
 // ---- property -------------------------------------------------------------------
 
-func manipNames(c Case) []string {
+func manipNames(c Case) []string { return manipNamesOf(c.Tok) }
+
+func manipNamesOf(tok TokSpec) []string {
 	var out []string
-	for _, m := range c.Tok.Manips {
+	for _, m := range tok.Manips {
 		n := m.Kind
 		switch m.Kind {
 		case "smuggle":
@@ -480,10 +706,12 @@ func keySetShape(keys []KeyEntry) string {
 
 var prop = vkit.Prop[Case]{
 	ID: "C02",
-	Rule: "cases = verifier kind (rp.VerifyIDToken with static and remote key set, op.VerifyAccessToken / VerifyIDTokenHint over op.OpenIDKeySet, id_token_hint and request object through the authorize endpoint of both routers, " +
+	Rule: "cases = verifier kind (rp.VerifyIDToken with static and remote key set, op.VerifyAccessToken / VerifyIDTokenHint over op.OpenIDKeySet and over the verifiers + default key set of a provider built by op.NewProvider, id_token_hint and request object through the authorize endpoint of both routers, " +
 		"op.VerifyJWTAssertion with per-client and published keys, op.ParseRequestObject, oidc.FindMatchingKey) x key set (0-4 keys, kid present/absent/duplicate/prefix-related, use sig/enc/empty, RSA/EC/Ed mixed) x allowed-alg list (default, explicit, misconfigured with HS*/none) " +
-		"x genuinely signed token (trusted / other key same kid / wrong kid / no kid / embedded jwk) with 0-2 manipulations (unsigned, alg=none, HS with public key, header/payload/signature tampering, re-encoding, truncation, extra segment, whitespace, JSON flattened/general, two signatures, dotted unprotected header smuggling an evil payload); " +
-		"claims otherwise valid with fixed far time stamps (no clock). non-trivial = >=1 manipulation or >=2 candidate keys (findkey: >=2 keys); distinct = (kind, router, manipulation set, key-set shape, allowed list, token alg/kid relation, verdict)",
+		"x genuinely signed token (trusted / other key same kid / wrong kid / no kid / embedded jwk) with 0-2 manipulations (unsigned, alg=none, HS with public key, header/payload/signature tampering, signature of another payload, re-encoding, truncation, extra segment, whitespace, JSON flattened/general, two signatures, dotted unprotected header smuggling an evil payload); " +
+		"60% of the token cases continue with 1-3 further calls on the SAME verifier / key set / provider / storage instance: before a call the served key set may change (remove, add, replace key under the same kid, change kid / use, clear, restore; per-client kinds: the registration of either client), the token is freshly signed (against the set in force or an earlier one) or derived from the genuinely signed token of an earlier call (same signature bytes: replayed, or 1-2 manipulations); every call is judged against the key set in force at that call " +
+		"(rp remote key set: rejection / acceptance demanded only if the set served now and the last two downloaded answers agree - its cache refresh is C13's subject). " +
+		"claims otherwise valid with fixed far time stamps (no clock). labels count calls. non-trivial = >=1 manipulation or >=2 candidate keys or >=2 calls (findkey: >=2 keys); distinct = (kind, router, manipulation set, key-set shape, allowed list, token alg/kid relation, verdict; per further call: key-set change, source call, manipulation set, key-set shape, alg, verdict)",
 	Gen: genCase,
 	Run: run,
 }
